@@ -22,6 +22,9 @@ def main():
     elif a.prop in ("C15", "C10", "C18"):
         import check_hub
         check_hub.run_check(a.prop, a.tier)
+    elif a.prop == "C05":
+        import check_hub2
+        check_hub2.run_check(a.prop, a.tier)
     elif a.prop == "C02":
         import check_cert
         check_cert.run_check(a.prop, a.tier)
